@@ -344,6 +344,11 @@ func (g *Gen) genSketchHistory(prop string) {
 	sg.sh.Exec(fmt.Sprintf("#hist %d", g.hist))
 	sg.pickMapping()
 	maxN := 60
+	if r.Bool(20) {
+		// long enough to cross the stores' phase changes (paginated compaction at 64/128 buffered
+		// entries, dense array growth) also in the quick tier
+		maxN = 300
+	}
 	if g.thorough() {
 		maxN = 400
 		if r.Bool(5) {
@@ -357,7 +362,7 @@ func (g *Gen) genSketchHistory(prop string) {
 		// a quantile read must not disturb what later additions and reads see
 		qEvery := []int{0, 0, 1, 7, 40}[r.Intn(5)]
 		if qEvery > 0 && r.Bool(60) {
-			n = r.Range(n, 8*maxN) // long enough for the paginated store to compact more than once
+			n = r.Range(n, maxInt(n, minInt(8*maxN, 480))) // long enough for the paginated store to compact more than once
 			sg.line("K 1 1 %s", sg.storeSpec([]string{"pag", "pag", "dense", "sparse"}))
 		} else {
 			sg.line("K 1 1 %s", sg.storeSpec(nonCollapsing))
@@ -819,6 +824,13 @@ func (sg *skGen) encchk(h int, omit bool) {
 
 func maxInt(a, b int) int {
 	if a > b {
+		return a
+	}
+	return b
+}
+
+func minInt(a, b int) int {
+	if a < b {
 		return a
 	}
 	return b
